@@ -69,6 +69,16 @@ def configs(t):
         app('A', 0, [prog('a', 1, required=True), prog('b', 2)], 'STOP')],
         triggers=[['rpc', 0, 'start_application', ['CONFIG', 'A', False]]], T=7, D=1,
         mute=[[0, 'A:a', 'start'], [1, 'A:a', 'start']], behaviours=['run'], cost=6))
+    # the host of a required program is lost after the request and before any acknowledgement
+    for sfs in ('ABORT', 'STOP'):
+        out.append(base(f'host-lost-before-ack-{sfs}', [
+            app('A', 0, [prog('a', 1, required=True, identifiers='10.0.0.2:25001'), prog('b', 2), prog('c', 3)], sfs)],
+            triggers=[['rpc', 0, 'start_application', ['CONFIG', 'A', False]]], T=5, F=1, faults=['crash'], crashable=[1],
+            mute=[[1, 'A:a', 'start']], behaviours=['run'], nicks=['aa', 'zz'], cost=4))
+    out.append(base('host-lost-D1', [
+        app('A', 0, [prog('a', 1, required=True, identifiers='10.0.0.2:25001'), prog('b', 2)], 'ABORT')],
+        triggers=[['rpc', 0, 'start_application', ['CONFIG', 'A', False]]], T=4, D=1, F=1, faults=['crash'], crashable=[1],
+        behaviours=['run'], nicks=['aa', 'zz'], cost=6))
     out.append(base('two-applications', [
         app('A', 0, [prog('a', 1), prog('b', 2)]), app('B', 0, [prog('d', 1), prog('e', 2)])],
         triggers=[['rpc', 0, 'start_application', ['CONFIG', 'A', False]],
